@@ -1,5 +1,5 @@
 #!/bin/bash
-export RUSTUP_TOOLCHAIN="${RUSTUP_TOOLCHAIN:-stable}"   # do not depend on rustup's default-toolchain setting
+. "$(cd "$(dirname "$0")" && pwd)/tools/env.sh"
 # Builds the framework offline from files on disk (idempotent): the shared lib and the monitor
 # binary of every check registered in tools/checks.json.  A monitor that is not registered is not
 # built here (./check builds on demand).
